@@ -1,8 +1,15 @@
 #!/bin/sh
-# usage: ./seedtest.sh <Cxx> <patch.diff>  -- apply a seeded change to /repo, run the quick check, undo it
-P=$1; D=$2
-git -C /repo status --short | grep -v '^??' | head -3
-git -C /repo apply "$D" || { echo "PATCH DOES NOT APPLY"; exit 2; }
-./check $P --tier quick; rc=$?
-git -C /repo checkout -- . 
+# usage: ./seedtest.sh <Cxx> <patch.diff> [check args]
+# Try a check against a seeded change WITHOUT touching /repo: scratch worktree of /repo's HEAD
+# (+ its uncommitted changes are NOT included), patch applied there, check run with VERIF_REPO
+# pointing at it (own work/evidence/replay directories under work/alt-*), worktree removed.
+P=$1; D=$(realpath "$2"); shift 2
+W=/tmp/alt-$P-$$
+git -C /repo worktree add --detach "$W" HEAD >/dev/null 2>&1 || { echo "cannot create worktree"; exit 2; }
+git -C "$W" apply "$D" || { echo "PATCH DOES NOT APPLY"; git -C /repo worktree remove --force "$W"; exit 2; }
+VERIF_REPO="$W" ./check "$P" "$@"; rc=$?
+git -C /repo worktree remove --force "$W"
+A=/verif/work/alt-$(printf %s "$W" | sha1sum | cut -c1-10)
+mkdir -p /verif/work/seedreplay; cp "$A"/replay/*.json /verif/work/seedreplay/ 2>/dev/null; cp "$A/evidence/$P.json" "/verif/work/seedreplay/evidence-$P.json" 2>/dev/null
+rm -rf "$A"
 echo "check exit=$rc"
